@@ -358,26 +358,68 @@ class Ctx:
                 json.dump(sh, fh, separators=(",", ":"))
             files.append(f)
 
+        unevaluable: dict[int, list] = {}
+
+        def failed_call(ev) -> bool:
+            """Does the event record a call of the implementation that failed (so that results may legitimately be missing)?"""
+            if not isinstance(ev, dict):
+                return False
+            if any(k2 in ev for k2 in ("exc", "rexc", "wexc", "dur_exc", "safe_exc")):
+                return True
+            if isinstance(ev.get("out"), str) and ev["out"] != "ok":
+                return True
+            return any(isinstance(p2, dict) and str(p2.get("out", "")).startswith("raised") for p2 in ev.get("parses", []) if isinstance(ev.get("parses"), list))
+
         def one(k):
             e = {"TRACE_FILE": str(files[k])}
             if env:
                 e.update(env)
-            return run_tlc(
-                module, cfg, workdir=self.workdir, mode="trace", workers=1, env=e, timeout=timeout, heap=heap,
-                deque=deque, tag=f"{tag}s{k}",
-            )
+            # A trace spec is meant to be total, but an event recording a *failed call* can lack a field the spec reads without
+            # a guard; TLC then stops with an evaluation error.  Such an event is itself the evidence of a violation (the call
+            # failed where the spec expected results): it is set aside as a verdict and the rest of the shard is validated.
+            removed = []
+            cur = list(shards[k])
+            index = list(range(1, len(cur) + 1))          # original 1-based positions of the events still in the file
+            for _attempt in range(40):
+                r = run_tlc(
+                    module, cfg, workdir=self.workdir, mode="trace", workers=1, env=e, timeout=timeout, heap=heap,
+                    deque=deque, tag=f"{tag}s{k}",
+                )
+                if r.ok or "The behavior up to this point is" not in (r.out or ""):
+                    break
+                tail = r.out[r.out.rfind("The behavior up to this point is"):]
+                ls = re.findall(r"\bl = (\d+)", tail)
+                if not ls:
+                    break
+                pos = int(ls[-1])
+                if not (1 <= pos <= len(cur)) or not failed_call(cur[pos - 1]):
+                    break
+                removed.append((index[pos - 1], cur[pos - 1]))
+                del cur[pos - 1]
+                del index[pos - 1]
+                with open(files[k], "w") as fh:
+                    json.dump(cur, fh, separators=(",", ":"))
+            unevaluable[k] = (removed, index)
+            return r
 
         new: list[Reject] = []
         with cf.ThreadPoolExecutor(max_workers=min(NCPU, len(shards))) as ex:
             results = list(ex.map(one, range(len(shards))))
+        for k, (removed, index) in unevaluable.items():
+            for orig, ev in removed:
+                clause = "call_failed_where_results_were_required"
+                key = key_of(ev, clause) if key_of else {"clause": clause}
+                key.setdefault("clause", clause)
+                new.append(Reject(self.pid, clause, key, ev, verdict=True, shard=k))
         for k, r in enumerate(results):
             self.tlc_runs.append(r)
             if not r.ok:
                 self.machinery_errors.append(f"trace validation {module} shard {k}: {r.error}")
                 continue
-            if expect_len and r.distinct != len(shards[k]) + 1:
+            removed_k, index_k = unevaluable.get(k, ([], list(range(1, len(shards[k]) + 1))))
+            if expect_len and r.distinct != len(shards[k]) - len(removed_k) + 1:
                 self.machinery_errors.append(
-                    f"trace validation {module} shard {k}: consumed {r.distinct - 1} of {len(shards[k])} events"
+                    f"trace validation {module} shard {k}: consumed {r.distinct - 1} of {len(shards[k]) - len(removed_k)} events"
                 )
             for pv in r.printed:
                 if isinstance(pv, list) and len(pv) >= 3 and pv[0] in ("REJECT", "DIVERGE"):
@@ -385,6 +427,8 @@ class Ctx:
                     if isinstance(clause, str) and clause.startswith("machinery_"):
                         self.machinery_errors.append(f"{module} shard {k} event {idx}: {clause}")
                         continue
+                    if isinstance(idx, int) and 1 <= idx <= len(index_k):
+                        idx = index_k[idx - 1]            # position in the original shard (events set aside shift the file)
                     ev = shards[k][idx - 1] if isinstance(idx, int) and 1 <= idx <= len(shards[k]) else None
                     key = key_of(ev, clause) if (key_of and ev is not None) else {"clause": clause}
                     rj = Reject(self.pid, clause, key, ev, verdict=(pv[0] == "REJECT"), shard=k)
